@@ -123,6 +123,9 @@ class World(cpool.World):
         c['ntemplatecrash'] = t.draw(2, 'ntemplatecrash') if faulty and t.draw(4, 'f_tmpl') == 3 else 0
         c['pcancel'] = t.pick([5, 15, 40], 'pcancel') if st == 'remote_cancel' else 0
         c.update(pstuck=0, longpause=False, ndrop=0, ppool=0)
+        # the compiler server PROCESS dies (with its worker processes) and is started again:
+        # everything it held is gone, its id counters start from scratch, instances reconnect
+        c['nsrvcrash'] = 1 + t.draw(2, 'nsrvcrash') if st == 'remote_restart' else 0
         self.cfg = c
         return c
 
@@ -143,8 +146,23 @@ class World(cpool.World):
             def getpid():
                 return 4242
         S.os = SrvOS
-        S._client_id_seq = 0
-        S._tx_state_id_seq = 0
+
+        class SrvSecrets:
+            """``secrets`` of the compiler-server process: randomness comes from the tape."""
+            compare_digest = staticmethod(__import__('secrets').compare_digest)
+
+            @staticmethod
+            def randbits(k):
+                # deterministic, different for every process incarnation, and NOT drawn from the
+                # tape: the tape of a run must not depend on whether the code asks for randomness
+                world.nrandbits += 1
+                h = __import__('hashlib').blake2b(f'compiler-server randbits {world.nrandbits}'.encode(), digest_size=16)
+                return int.from_bytes(h.digest(), 'big') & ((1 << k) - 1)
+
+            @staticmethod
+            def token_urlsafe(n=None):
+                return 'sim-secret'
+        S.secrets = SrvSecrets
         P.os.environ['_EDGEDB_SERVER_COMPILER_POOL_SECRET'] = 'sim-secret'
         loop.create_connection = self.create_connection
 
@@ -154,10 +172,27 @@ class World(cpool.World):
         self.srv_inflight_cid = collections.Counter()
         self.srv_held = set()          # server-side Worker objects currently acquired
         self.started = False
+        self.srv_down = False
+        self.dead_spools = []
+        self.nrandbits = 0
+        self.spool = self.pool = self.make_spool()
 
+        common = dict(loop=loop, backend_runtime_params=None, std_schema=cpool.Tok('std'),
+                      refl_schema=cpool.Tok('refl'), schema_class_layout=cpool.Tok('layout'))
+        self.pools = {tn: P.RemotePool(address=('sim', tn), pool_size=c['rpool_size'],
+                                       dbindex=DbIndex(self, tn), **common)
+                      for tn in range(c['ntenants'])}
+
+    def make_spool(self):
+        """A compiler server process: fresh module-level counters, fresh MultiSchemaPool."""
+        c, loop = self.cfg, self.loop
+        S = self.mods['server']
+        S._client_id_seq = 0
+        S._tx_state_id_seq = 0
+        for name, code in sorted(self.ci._state.get('server_init', {}).items()):
+            setattr(S, name, eval(code, S.__dict__))        # the module-level statements of a new process
         spool = S.MultiSchemaPool(c['cache_size'], secret=b'sim-secret', loop=loop,
                                   runstate_dir='/sim', pool_size=c['nworkers'])
-        self.spool = self.pool = spool
         orig_handle = spool.handle_client_call
 
         async def handle_client_call(protocol, req_id, msg):
@@ -180,12 +215,7 @@ class World(cpool.World):
             return orig_release(w, **kw)
         spool._acquire_worker = _acquire_worker
         spool._release_worker = _release_worker
-
-        common = dict(loop=loop, backend_runtime_params=None, std_schema=cpool.Tok('std'),
-                      refl_schema=cpool.Tok('refl'), schema_class_layout=cpool.Tok('layout'))
-        self.pools = {tn: P.RemotePool(address=('sim', tn), pool_size=c['rpool_size'],
-                                       dbindex=DbIndex(self, tn), **common)
-                      for tn in range(c['ntenants'])}
+        return spool
 
     def pool_for(self, tn):
         return self.pools[tn]
@@ -211,11 +241,14 @@ class World(cpool.World):
                                      t.draw(c['ntenants'], 'linkdrop_which'))
         for _ in range(c['ntemplatecrash']):
             loop.call_later_external(t.draw(horizon + 1, 'tmpl_at') * MS, self.template_crash)
+        for _ in range(c['nsrvcrash']):
+            loop.call_later_external(t.draw(horizon + 1, 'srvcrash_at') * MS, self.server_crash)
         await asyncio.wait(self.client_tasks)
         for tk in self.client_tasks:
             if not tk.cancelled() and tk.exception() is not None:
                 raise tk.exception()
-        self.audit('at the end of the run (everything idle)')
+        if not self.srv_down:
+            self.audit('at the end of the run (everything idle)')
         self.stopping = True
         for tn in sorted(self.pools):
             was_poisoned = self.poisoned(tn)
@@ -233,6 +266,9 @@ class World(cpool.World):
         await loop.sleep_external(t.draw(c['net'] + 1, 'connect_latency') * MS)
         if self.stopping:
             raise ConnectionRefusedError('compiler server is shutting down')
+        if self.srv_down:
+            self.probes['connect_while_server_down'] += 1
+            raise ConnectionRefusedError('compiler server is down')
         if self.started and c['prefuse'] and t.chance(c['prefuse'], 100, 'connect_refused'):
             self.faults['connect_refused'] += 1
             self.ev('connect_refused', tn)
@@ -306,6 +342,56 @@ class World(cpool.World):
                 loop.call_soon(self.link_lost, link, side)
             else:
                 loop.call_later_external(t.draw(4, 'lost_notice') * MS, self.link_lost, link, side)
+
+    # -- the compiler server process dies and is started again ----------------------------------
+    def server_crash(self):
+        t, loop = self.tape, self.loop
+        if self.stopping or self.srv_down or not self.started:
+            return
+        self.srv_down = True
+        self.faults['compiler_server_crash'] += 1
+        self.ev('server_crash')
+        # its worker processes go with it; nobody is left to be told
+        for wk in list(self.procs.values()):
+            if wk.alive:
+                self.mark_inflight_killed(wk)
+                wk.alive = False
+                wk.busy = False
+                wk.connected = False
+                wk.inbox.clear()
+        for tr in self.templates:
+            tr.closed = True
+        self.factory = None
+        # every connection dies with the process; only the instances are there to notice
+        for tn, link in sorted(self.links.items()):
+            if not link.alive:
+                continue
+            link.alive = False
+            link.q['c'].clear()
+            link.q['s'].clear()
+            link.lost['s'] = True
+            self.ev('link_down', tn, 'server_crash')
+            for tag, meta in self.req_meta.items():
+                if meta.get('tn') == tn and not meta.get('done'):
+                    meta['injected'].add('link_lost')
+            loop.call_later_external(t.draw(4, 'lost_notice') * MS, self.link_lost, link, 'c')
+        # the old server object is orphaned: whatever its coroutines were waiting for never comes
+        self.dead_spools.append(self.spool)
+        self.srv_inflight_cid.clear()
+        self.srv_held.clear()
+        loop.call_later_external((1 + t.draw(2500, 'srv_restart_delay')) * MS, self.server_restart)
+
+    def server_restart(self):
+        if self.stopping:
+            return
+        self.loop.harness_task(self._server_restart())
+
+    async def _server_restart(self):
+        self.spool = self.pool = self.make_spool()
+        self.ev('server_restart')
+        await self.spool.start()
+        self.srv_down = False
+        self.probes['compiler_server_restarted'] += 1
 
     def link_abort(self, link, side):
         if link.alive:
